@@ -474,6 +474,47 @@ def oracle_c10(sc, tr):
         if chain > nh_max * (nh_max + 1):
             bad.append(("busy-loop", f"{chain} dials in a chain of immediate retries ending at tick {b} with {nh_max} hosts"))
             break
+    # the delay GROWS: consecutive back-off sleeps of one connector run - with no external event, no successful session,
+    # no authentication end and no race in between - are non-decreasing, and strictly increasing until they reach 60 s.
+    # A sleep runs from the moment the activity begun at dial tick a is over (a refused round: at once; a hanging round:
+    # its 10 s timeout; a connection that was opened: the tick it was closed after the failing answer / the 30 s request
+    # timeout) to the next dial tick b.  b == that moment is no sleep (next happy-eyeballs round, or the immediate retry
+    # after a wrong pairing id): skipped, the chain goes on.  Anything else starts a new chain.
+    if not any(e[1] in ("stalled", "livelock") for e in tr):
+        first_closed = {}
+        for e in tr:
+            if e[1] == "closed":
+                first_closed.setdefault(e[2], e[0])
+        kind_of = {e[2]: e[3] for e in verif_evs}
+        opened_at = {}
+        for e in tr:
+            if e[1] == "opened":
+                opened_at.setdefault(e[0], []).append(e[2])
+        prev = None
+        for a, b in zip(dts, dts[1:]):
+            if any(a <= x <= b for x in ext):
+                prev = None
+                continue
+            over = a + (TEN_S if any(h == a for h in hangs) else 0)
+            for c in opened_at.get(a, []):
+                vd = _vdelay_of(sc, c)
+                k = kind_of.get(c)
+                failing = k is not None and (vd > THIRTY_S or (vd < THIRTY_S and k not in ("ok", "auth")))
+                if not failing or c not in first_closed:
+                    over = None                       # session established / connector ended / race / still open
+                    break
+                over = max(over, first_closed[c])
+            if over is None or over > b:
+                prev = None
+                continue
+            sleep = b - over
+            if sleep == 0:
+                continue
+            if prev is not None and (sleep < prev or (prev < SIXTY_S and sleep == prev)):
+                bad.append(("backoff-not-growing", f"back-off sleeps of {prev} then {sleep} ticks ({prev / 4096:.2f} s, "
+                            f"{sleep / 4096:.2f} s): the attempt begun at tick {a} was over at {over}, the next began at {b}"))
+                break
+            prev = sleep
     # a silent accessory cannot stall the connector: a pair-verify request that arrived at tick t is over by t + 30 s
     # - its connection closed, or in use (the pairing connected on it)
     closed_tick = {}
